@@ -453,3 +453,6 @@ def main(argv):
     except subprocess.TimeoutExpired as e:
         print(f'[{a.prop}] TIMEOUT (exit 2): {e}', file=sys.stderr)
         return 2
+    except Exception:
+        print(f'[{a.prop}] MACHINERY ERROR (exit 2):\n{traceback.format_exc()}', file=sys.stderr)
+        return 2
